@@ -17,6 +17,10 @@
 -/
 import NB.Base
 import NB.Model.AddSub
+import NB.Model.Mul
+import NB.Model.Div
+import NB.Model.Bits
+import NB.Model.Shift
 namespace NB.Core
 
 /-! ## u32 input words -/
@@ -363,8 +367,149 @@ def uAsgOp : UOpImpl :=
   { name := "asg", valid := fun _ => true, immOk := wordsOkB,
     step := fun _ a _ imm => .ok (BigUint.assignFromSlice a imm), spec := fun _ _ imm => some (val32 imm) }
 
+
+/-! ### value-level bit operations for the spec machine (import-free, executable)
+
+  Verbatim copies of Mathlib's `Nat.ldiff`, `Int.land`, `Int.lor`, `Int.xor`, `Int.ldiff`
+  (infinite two's complement); NB.Lemmas.Core proves them equal to Mathlib's by `rfl`. -/
+
+def natLdiff : Nat → Nat → Nat := Nat.bitwise fun a b => a && !b
+
+def intLand : Int → Int → Int
+  | .ofNat m, .ofNat n => ((m &&& n : Nat) : Int)
+  | .ofNat m, .negSucc n => ((natLdiff m n : Nat) : Int)
+  | .negSucc m, .ofNat n => ((natLdiff n m : Nat) : Int)
+  | .negSucc m, .negSucc n => Int.negSucc (m ||| n)
+
+def intLor : Int → Int → Int
+  | .ofNat m, .ofNat n => ((m ||| n : Nat) : Int)
+  | .ofNat m, .negSucc n => Int.negSucc (natLdiff n m)
+  | .negSucc m, .ofNat n => Int.negSucc (natLdiff m n)
+  | .negSucc m, .negSucc n => Int.negSucc (m &&& n)
+
+def intXor : Int → Int → Int
+  | .ofNat m, .ofNat n => ((m ^^^ n : Nat) : Int)
+  | .ofNat m, .negSucc n => Int.negSucc (m ^^^ n)
+  | .negSucc m, .ofNat n => Int.negSucc (m ^^^ n)
+  | .negSucc m, .negSucc n => ((m ^^^ n : Nat) : Int)
+
+def intLdiff : Int → Int → Int
+  | .ofNat m, .ofNat n => ((natLdiff m n : Nat) : Int)
+  | .ofNat m, .negSucc n => ((m &&& n : Nat) : Int)
+  | .negSucc m, .ofNat n => Int.negSucc (m ||| n)
+  | .negSucc m, .negSucc n => ((natLdiff n m : Nat) : Int)
+
+/-! ### scalar multiplication forms (64-bit digits) -/
+
+/-- the decidable well-formedness condition of the multiplication parameters, restated here
+    because `Params.ValidMul` lives in a Mathlib-importing file; `validMulB_iff` in
+    NB.Lemmas.Core proves `validMulB P = true ↔ P.ValidMul` -/
+def validMulB (P : Params) : Bool :=
+  decide (1 ≤ P.karaSlack ∧ 1 ≤ P.mulSlack ∧ 2 ≤ P.halfDen ∧ P.halfDen ≤ P.tSchool + 1 ∧
+    2 ≤ P.karaDen ∧ P.karaDen ≤ P.tSchool + 1 ∧ 1 ≤ P.toomAdd ∧ P.halfMul + 1 ≤ P.toomDen ∧
+    (P.halfMul + 1) * (P.toomAdd + 1) ≤ P.tKara + 1)
+
+/-- `impl MulAssign<u128> for BigUint`: `if let Some(d) = BigDigit::from_u128(other) { scalar_mul(self, d) }
+    else { let (hi, lo) = from_doublebigdigit(other); *self = mul3(&self.data, &[lo, hi]) }`.
+    NOTE: no zero test on `self` before `mul3`. -/
+def BigUint.mulAssignU128 (P : Params) (a : List Nat) (s : Nat) : Except Panic (List Nat) :=
+  if s < B then .ok (Mul.scalarMul a s)
+  else Mul.mul3 P a [s % B, s / B]
+
+/-- `impl MulAssign<u128> for BigInt`: `self.data *= other; if self.data.is_zero() { self.sign = NoSign }` -/
+def BigInt.mulAssignU128 (P : Params) (x : BigInt) (s : Nat) : Except Panic BigInt :=
+  (BigUint.mulAssignU128 P x.mag s).map fun d => ⟨if BigUint.isZero d then .nosign else x.sign, d⟩
+
+/-- `impl MulAssign<i128> for BigInt`: `match other.checked_uabs() { Positive(u) => *self *= u,
+    Negative(u) => { self.sign = -self.sign; self.data *= u } }` -/
+def BigInt.mulAssignI128 (P : Params) (x : BigInt) (neg : Bool) (u : Nat) : Except Panic BigInt :=
+  if neg then (BigUint.mulAssignU128 P x.mag u).map fun d => ⟨x.sign.neg, d⟩
+  else BigInt.mulAssignU128 P x u
+
+/-- `impl ShrAssign<usize> for BigUint` / `for BigInt` are modelled in NB.C07; a register of
+    `2^58` or more digits cannot exist (`Vec` allocation beyond `isize::MAX` bytes panics with
+    "capacity overflow"), which is what `shr_round_down`'s `u64` bit count relies on: such a
+    (physically impossible) operand is a capacity failure in the machine -/
+def physOk (len : Nat) : Bool := decide (C07.BITS * len < C07.U64_RANGE)
+
+/-- number of base-2^64 digits of a natural number (spec side of `physOk`) -/
+def digitLen (n : Nat) : Nat := (ofNat n).length
+
+/-! immediates -/
+def immU64 : List Nat → Bool
+  | [k] => decide (k < B)
+  | _ => false
+def immU32 : List Nat → Bool
+  | [k] => decide (k < B32)
+  | _ => false
+/-- a `u128` as `[lo, hi]` -/
+def immU128 : List Nat → Bool
+  | [lo, hi] => decide (lo < B) && decide (hi < B)
+  | _ => false
+/-- an `i128` as `[neg, lo, hi]`: `neg = 1` with `1 ≤ |v| ≤ 2^127`, or `neg = 0` with `v < 2^127` -/
+def immI128 : List Nat → Bool
+  | [neg, lo, hi] => decide (lo < B) && decide (hi < B) &&
+      ((neg == 0 && decide (lo + B * hi < 2 ^ 127)) || (neg == 1 && decide (1 ≤ lo + B * hi) && decide (lo + B * hi ≤ 2 ^ 127)))
+  | _ => false
+/-- `(bit index : u64, value : bool)` -/
+def immBit : List Nat → Bool
+  | [k, v] => decide (k < B) && decide (v < 2)
+  | _ => false
+def imm0 (imm : List Nat) : Nat := imm.getD 0 0
+def imm1 (imm : List Nat) : Nat := imm.getD 1 0
+def imm2 (imm : List Nat) : Nat := imm.getD 2 0
+
+/-- `a *= &b` -/
+def uMulOp : UOpImpl :=
+  { name := "mul", valid := validMulB, immOk := fun _ => true,
+    step := fun P a b _ => Mul.mulAssign P a b, spec := fun x y _ => some (x * y) }
+/-- `a *= imm as u32` (`scalar_mul(self, other as BigDigit)`) -/
+def uMul32Op : UOpImpl :=
+  { name := "mul32", valid := fun _ => true, immOk := immU32,
+    step := fun _ a _ imm => .ok (Mul.scalarMul a (imm0 imm)), spec := fun x _ imm => some (x * imm0 imm) }
+/-- `a *= imm as u64` -/
+def uMul64Op : UOpImpl :=
+  { name := "mul64", valid := fun _ => true, immOk := immU64,
+    step := fun _ a _ imm => .ok (Mul.scalarMul a (imm0 imm)), spec := fun x _ imm => some (x * imm0 imm) }
+/-- `a *= (lo + 2^64 hi) as u128` -/
+def uMul128Op : UOpImpl :=
+  { name := "mul128", valid := validMulB, immOk := immU128,
+    step := fun P a _ imm => BigUint.mulAssignU128 P a (imm0 imm + B * imm1 imm),
+    spec := fun x _ imm => some (x * (imm0 imm + B * imm1 imm)) }
+/-- `a /= &b` (`*self = &*self / other`; panics on a zero divisor) -/
+def uDivOp : UOpImpl :=
+  { name := "div", valid := fun _ => true, immOk := fun _ => true,
+    step := fun P a b _ => divRef P a b, spec := fun x y _ => if y = 0 then none else some (x / y) }
+/-- `a %= &b` -/
+def uRemOp : UOpImpl :=
+  { name := "rem", valid := fun _ => true, immOk := fun _ => true,
+    step := fun P a b _ => remRef P a b, spec := fun x y _ => if y = 0 then none else some (x % y) }
+/-- `a <<= imm as usize` -/
+def uShlOp : UOpImpl :=
+  { name := "shl", valid := fun _ => true, immOk := immU64,
+    step := fun _ a _ imm => C07.biguintShl a (imm0 imm : Nat), spec := fun x _ imm => some (x * 2 ^ imm0 imm) }
+/-- `a >>= imm as usize` -/
+def uShrOp : UOpImpl :=
+  { name := "shr", valid := fun _ => true, immOk := immU64,
+    step := fun _ a _ imm => C07.biguintShr a (imm0 imm : Nat), spec := fun x _ imm => some (x / 2 ^ imm0 imm) }
+def uAndOp : UOpImpl :=
+  { name := "and", valid := fun _ => true, immOk := fun _ => true,
+    step := fun _ a b _ => .ok (C07.andAssign a b), spec := fun x y _ => some (x &&& y) }
+def uOrOp : UOpImpl :=
+  { name := "or", valid := fun _ => true, immOk := fun _ => true,
+    step := fun _ a b _ => .ok (C07.orAssign a b), spec := fun x y _ => some (x ||| y) }
+def uXorOp : UOpImpl :=
+  { name := "xor", valid := fun _ => true, immOk := fun _ => true,
+    step := fun _ a b _ => .ok (C07.xorAssign a b), spec := fun x y _ => some (x ^^^ y) }
+/-- `a.set_bit(imm[0], imm[1] != 0)` -/
+def uSetBitOp : UOpImpl :=
+  { name := "setbit", valid := fun _ => true, immOk := immBit,
+    step := fun _ a _ imm => .ok (C07.setBitU a (imm0 imm) (imm1 imm == 1)),
+    spec := fun x _ imm => some (if imm1 imm == 1 then x ||| 2 ^ imm0 imm else natLdiff x (2 ^ imm0 imm)) }
+
 /-- THE LIST of in-place BigUint operations the history theorem ranges over -/
-def uOps : List UOpImpl := [uAddOp, uSubOp, uZeroOp, uOneOp, uCloneOp, uAsgOp]
+def uOps : List UOpImpl := [uAddOp, uSubOp, uZeroOp, uOneOp, uCloneOp, uAsgOp,
+  uMulOp, uMul32Op, uMul64Op, uMul128Op, uDivOp, uRemOp, uShlOp, uShrOp, uAndOp, uOrOp, uXorOp, uSetBitOp]
 
 /-! in-place operations on a BigInt register -/
 
@@ -392,8 +537,58 @@ def iNegOp : IOpImpl :=
   { name := "neg", valid := fun _ => true, immOk := fun _ => true,
     step := fun _ a _ _ => .ok (BigInt.negVal a), spec := fun x _ _ => some (-x) }
 
+
+/-- `a *= &b` -/
+def iMulOp : IOpImpl :=
+  { name := "mul", valid := validMulB, immOk := fun _ => true,
+    step := fun P a b _ => Mul.bigintMulAssign P a b, spec := fun x y _ => some (x * y) }
+/-- `a *= (lo + 2^64 hi) as u128` -/
+def iMul128Op : IOpImpl :=
+  { name := "mul128", valid := validMulB, immOk := immU128,
+    step := fun P a _ imm => BigInt.mulAssignU128 P a (imm0 imm + B * imm1 imm),
+    spec := fun x _ imm => some (x * ((imm0 imm + B * imm1 imm : Nat) : Int)) }
+/-- `a *= (±(lo + 2^64 hi)) as i128`, `imm = [neg, lo, hi]` -/
+def iMulI128Op : IOpImpl :=
+  { name := "muli128", valid := validMulB, immOk := immI128,
+    step := fun P a _ imm => BigInt.mulAssignI128 P a (imm0 imm == 1) (imm1 imm + B * imm2 imm),
+    spec := fun x _ imm => some (x * (if imm0 imm == 1 then -((imm1 imm + B * imm2 imm : Nat) : Int)
+                                       else ((imm1 imm + B * imm2 imm : Nat) : Int))) }
+/-- `a /= &b` (`*self = &*self / other`: truncated division; panics on a zero divisor) -/
+def iDivOp : IOpImpl :=
+  { name := "div", valid := fun _ => true, immOk := fun _ => true,
+    step := fun P a b _ => NB.BigInt.div P a b, spec := fun x y _ => if y = 0 then none else some (Int.tdiv x y) }
+/-- `a %= &b` (remainder of truncated division) -/
+def iRemOp : IOpImpl :=
+  { name := "rem", valid := fun _ => true, immOk := fun _ => true,
+    step := fun P a b _ => NB.BigInt.rem P a b, spec := fun x y _ => if y = 0 then none else some (Int.tmod x y) }
+/-- `a <<= imm as usize` -/
+def iShlOp : IOpImpl :=
+  { name := "shl", valid := fun _ => true, immOk := immU64,
+    step := fun _ a _ imm => C07.BigInt.shlAssign a (imm0 imm : Nat), spec := fun x _ imm => some (x * 2 ^ imm0 imm) }
+/-- `a >>= imm as usize` (floor); see `physOk` -/
+def iShrOp : IOpImpl :=
+  { name := "shr", valid := fun _ => true, immOk := immU64,
+    step := fun P a _ imm => if physOk a.mag.length then C07.BigInt.shrAssign P a (imm0 imm : Nat) else .error .capacity,
+    spec := fun x _ imm => if physOk (digitLen x.natAbs) then some (x / 2 ^ imm0 imm) else none }
+def iAndOp : IOpImpl :=
+  { name := "and", valid := fun _ => true, immOk := fun _ => true,
+    step := fun _ a b _ => C07.BigInt.andAssign a b, spec := fun x y _ => some (intLand x y) }
+def iOrOp : IOpImpl :=
+  { name := "or", valid := fun _ => true, immOk := fun _ => true,
+    step := fun _ a b _ => C07.BigInt.orAssign a b, spec := fun x y _ => some (intLor x y) }
+def iXorOp : IOpImpl :=
+  { name := "xor", valid := fun _ => true, immOk := fun _ => true,
+    step := fun _ a b _ => C07.BigInt.xorAssign a b, spec := fun x y _ => some (intXor x y) }
+/-- `a.set_bit(imm[0], imm[1] != 0)` on the infinite two's complement expansion -/
+def iSetBitOp : IOpImpl :=
+  { name := "setbit", valid := fun _ => true, immOk := immBit,
+    step := fun _ a _ imm => C07.BigInt.setBit a (imm0 imm) (imm1 imm == 1),
+    spec := fun x _ imm => some (if imm1 imm == 1 then intLor x ((2 ^ imm0 imm : Nat) : Int)
+                                 else intLdiff x ((2 ^ imm0 imm : Nat) : Int)) }
+
 /-- THE LIST of in-place BigInt operations the history theorem ranges over -/
-def iOps : List IOpImpl := [iAddOp, iSubOp, iZeroOp, iOneOp, iCloneOp, iAsgOp, iNegOp]
+def iOps : List IOpImpl := [iAddOp, iSubOp, iZeroOp, iOneOp, iCloneOp, iAsgOp, iNegOp,
+  iMulOp, iMul128Op, iMulI128Op, iDivOp, iRemOp, iShlOp, iShrOp, iAndOp, iOrOp, iXorOp, iSetBitOp]
 
 /-- an operation is sound: on canonical operands and well-typed immediates it either fails exactly
     when the spec says so, or returns the canonical representation of the spec's value -/
